@@ -45,8 +45,21 @@ def programs(tier):
            con("TaskUnloadBuffer", "u", task=R("a"), buffer=R("bf"), quantity=1), con("TaskLoadBuffer", "l", task=R("b"), buffer=R("bf"), quantity=2)]
     out.append(("max-buffer", prog(3, buf + [new("ObjectiveMaximizeMaxBufferLevel", "o", buffer=R("bf"))])))
     out.append(("min-buffer", prog(3, buf + [new("ObjectiveMinimizeMaxBufferLevel", "o", buffer=R("bf"))])))
+    # Objective{Min,Max}imizeIndicator over every built-in indicator kind (the optimum is not at a 'natural' bound such as 0)
+    due = [fixed("a", 1, due_date=3, due_date_is_deadline=False), fixed("b", 1, due_date=3, due_date_is_deadline=False), worker("w"), req("a", "w"), req("b", "w")]
+    for icls, direction in (("IndicatorMaximumLateness", "Min"), ("IndicatorMaximumLateness", "Max"), ("IndicatorTardiness", "Min"), ("IndicatorEarliness", "Min"),
+                            ("IndicatorEarliness", "Max"), ("IndicatorNumberOfTardyTasks", "Min")):
+        kw = {"weight": 1} if direction == "Min" else {}
+        out.append((f"{direction.lower()}-{icls}", prog(4, due + [new(icls, "i"), new(f"Objective{direction}imizeIndicator", "o", target=R("i"), **kw)])))
+    resw = [fixed("a", 1), fixed("b", 1), worker("w", cost=lin_fn(1, 1)), worker("v", cost=const_fn(2)), select("s", ["w", "v"]), req("a", "s"), req("b", "w")]
+    for icls, args, direction in (("IndicatorResourceIdle", {"resource": R("w")}, "Min"), ("IndicatorResourceIdle", {"resource": R("w")}, "Max"),
+                                  ("IndicatorNumberTasksAssigned", {"resource": R("w")}, "Min"), ("IndicatorNumberTasksAssigned", {"resource": R("v")}, "Max"),
+                                  ("IndicatorResourceCost", {"list_of_resources": [R("w"), R("v")]}, "Min"), ("IndicatorResourceCost", {"list_of_resources": [R("w")]}, "Max")):
+        kw = {"weight": 1} if direction == "Min" else {}
+        out.append((f"{direction.lower()}-{icls}", prog(3, resw + [new(icls, "i", **args), new(f"Objective{direction}imizeIndicator", "o", target=R("i"), **kw)])))
+    out.append(("max-IndicatorMinBufferLevel", prog(3, buf + [new("IndicatorMinBufferLevel", "i", buffer=R("bf")), new("ObjectiveMaximizeIndicator", "o", target=R("i"))])))
     # same-direction pairs
-    for w1, w2 in ((1, 1), (1, 2), (3, 1)) if tier == "thorough" else ((1, 2),):
+    for w1, w2 in ((1, 1), (1, 2), (3, 1), (1, 0), (0, 2)) if tier == "thorough" else ((1, 2), (1, 0)):
         out.append((f"pair-min/{w1}:{w2}", prog(4, W2 + [new("IndicatorFromMathExpression", "i1", name="i1", expression=E(["end", "a"])),
                                                         new("IndicatorFromMathExpression", "i2", name="i2", expression=E(["-", 6, ["start", "b"]])),
                                                         new("ObjectiveMinimizeIndicator", "o1", target=R("i1"), weight=w1),
@@ -76,10 +89,29 @@ def objective_values(program, skw=None):
     stats = ex.Stats()
     leaves = list(ex.explore(solver._solver, prims + [extra], stats))
     values = sorted({l[("objective",)] for l in leaves})
+    # the objective unknown must be the documented quantity (weighted sum of the declared objectives) on every leaf
+    kind_ref, fn_ref = C13.obj_fn(program)
+    mismatch = None
+    is_makespan_only = all(d["cls"] == "ObjectiveMinimizeMakespan" for d in program["decls"] if d["k"] == "new" and d["cls"].startswith("Objective"))
+    by_sched = {}
+    for l in leaves:
+        key = ex.leaf_key({k: v for k, v in l.items() if k != ("objective",)})
+        by_sched.setdefault(key, []).append(l[("objective",)])
+    for l in leaves:
+        want = fn_ref({k: v for k, v in l.items() if k != ("objective",)})
+        if want is None:
+            continue
+        got = by_sched[ex.leaf_key({k: v for k, v in l.items() if k != ("objective",)})]
+        has_makespan = any(d["k"] == "new" and d["cls"] == "ObjectiveMinimizeMakespan" for d in program["decls"])
+        ok = (min(got) == want) if has_makespan else (got == [want])
+        if not ok:
+            mismatch = {"leaf": analysis._leaf_list({k: v for k, v in l.items() if k != ("objective",)}), "implementation": sorted(set(got)), "documented": want}
+            break
     timings = {hs.timing_of_leaf(program, l) for l in leaves}
     by_timing = {}
     for l in leaves:
         by_timing.setdefault(hs.timing_of_leaf(program, l), set()).add(l[("objective",)])
+    objective_values.mismatch = mismatch
     return values, kind, timings, by_timing, stats, built, len(leaves)
 
 
@@ -130,6 +162,12 @@ def job(j):
         best = min(values) if kind == "min" else max(values)
         n_obj = len([d for d in program["decls"] if d["k"] == "new" and d["cls"].startswith("Objective")])
         sigs = {}
+        mm = objective_values.mismatch
+        if mm:
+            sig = {"dir": "optimise", "what": "objective-is-not-the-documented-quantity", "objectives": n_obj, "kind": kind}
+            sigs[json.dumps(sig, sort_keys=True)] = [1, {"program": program, "solver": {}, "choices": [], "env": {}, "values": values, "best": best,
+                                                        "detail": f"on schedule {mm['leaf']} the optimised unknown takes {mm['implementation']}, the declared objectives give {mm['documented']}",
+                                                        "expect": "optimise", "what": "objective-is-not-the-documented-quantity"}, sig]
 
         def record(what, env, cfg, detail):
             sig = {"dir": "optimise", "what": what, "optimizer": cfg.get("optimizer", "incremental"), "kind": kind, "objectives": n_obj,
@@ -241,7 +279,10 @@ def replay(inst):
            "models_seen": [p["enabled"][p["chosen"]] for p in env.points if p["enabled"]], "leftover_scopes": env.leftover_scopes}
     what = inst["what"]
     bad = False
-    if what == "not-optimal":
+    if what == "objective-is-not-the-documented-quantity":
+        bad = objective_values.mismatch is not None
+        out["mismatch"] = objective_values.mismatch
+    elif what == "not-optimal":
         bad = env.sol and env.value != best
     elif what == "raised":
         bad = bool(env.err)
